@@ -269,7 +269,7 @@ def main():
         ok = all(np.all(np.diff(pf[a], axis=dim - 1 - a) > 0) and all(np.all(np.diff(pf[a], axis=b) == 0) for b in range(dim) if b != dim - 1 - a) for a in range(dim))
         if not ok:
             chk.errors.append(f"axis convention: position_field[{dim}D] does not vary with x along the last axis")
-    rts = ["float64"] if chk.quick else ["float64", "float32"]
+    rts = ["float64", "float32"]
     for rt in rts:
         for dim in (2, 3):
             chk.add(scalar_ops, real_t=rt, op="diffusion_flux", dim=dim)
